@@ -23,7 +23,7 @@ ASSUMPTIONS = [
     "tolerance 1e-11 of max(|summands|,|total|) per key: pure re-association of sums",
     "configurations excluded by construction (documented gaps, explicitly rejected by the code): polarised CC, polarised N3LO, TMC for gL/g4",
 ]
-BUDGET = {"quick": {"examples": 1600, "wall": 400}, "thorough": {"examples": 30000, "wall": 2400}}
+BUDGET = {"quick": {"examples": 1600, "wall": 400}, "thorough": {"examples": 45000, "wall": 2400}}
 MANDATORY = {
     t: ["family:a", "family:b", "family:c", "family:d", "nontrivial:a", "nontrivial:b", "nontrivial:c", "nontrivial:d", "sv:on"]
     for t in ("quick", "thorough")
